@@ -822,6 +822,34 @@ mod h {
     mirror!(c05_u2_mirror_string, |_p| TyRef::STRING, crate::RotoString);
     mirror!(c05_u2_mirror_pair, |p| { let t = p.push(Ty::Record(vec![(Identifier(100), TyRef::U8), (Identifier(101), TyRef::U32)])); p.assume_layout(t, 8, 4); t }, Pair);
 
+    /// Result / Verdict whose second payload is MORE aligned than the first (the union of the
+    /// variant layouts must round the size up to the combined alignment)
+    macro_rules! mirror_err {
+        ($name:ident, $mk:expr, $rust:ty, $mk_err:expr, $rust_err:ty) => {
+            #[kani::proof]
+            #[kani::unwind(34)]
+            fn $name() {
+                let mut pool = base_pool();
+                let mk: fn(&mut Pool) -> TyRef = $mk;
+                let mk_err: fn(&mut Pool) -> TyRef = $mk_err;
+                let t = mk(&mut pool);
+                let e = mk_err(&mut pool);
+                let res = pool.push(Ty::Enum(vec![(Identifier(1), vec![t]), (Identifier(2), vec![e])]));
+                let r = rt();
+                let lr = pool.layout_of(res, &r).unwrap();
+                let (wr, wv) = (Layout::of::<RotoResult<$rust, $rust_err>>(), Layout::of::<Verdict<$rust, $rust_err>>());
+                assert!(lr.size() == wr.size() && lr.align() == wr.align(), "OBL:C05.mirror.result_layout_equals_rust_mirror");
+                assert!(lr.size() == wv.size() && lr.align() == wv.align(), "OBL:C05.mirror.verdict_layout_equals_rust_mirror");
+                assert!(lr.size() % lr.align() == 0, "OBL:C05.mirror.enum_size_is_a_multiple_of_its_alignment");
+                kani::cover!(true, "COV:C05.mirror.reached");
+            }
+        };
+    }
+    mirror_err!(c05_u2_mirror_ipaddr_u32, |p| { let t = p.push(Ty::Primitive(Primitive::IpAddr)); p.assume_layout(t, 17, 1); t }, std::net::IpAddr, |_p| TyRef::U32, u32);
+    mirror_err!(c05_u2_mirror_ipaddr_u64, |p| { let t = p.push(Ty::Primitive(Primitive::IpAddr)); p.assume_layout(t, 17, 1); t }, std::net::IpAddr, |_p| TyRef::U64, u64);
+    mirror_err!(c05_u2_mirror_u8_u64, |_p| TyRef::U8, u8, |_p| TyRef::U64, u64);
+    mirror_err!(c05_u2_mirror_i16_f64, |_p| TyRef::I16, i16, |_p| TyRef::F64, f64);
+
     /// discriminant values and payload offset of the Rust mirrors are the ones Roto writes:
     /// first variant (Some / Ok / Accept) = 0, second = 1, payload at 1 rounded up to its alignment.
     #[kani::proof]
